@@ -14,6 +14,9 @@ def run(ctx):
     ctx.explanation = EXPL
     ctx.level = 'other'
     ctx.assumptions = ['soundness/unforgeability and acceptance for the right message are cryptographic value-level facts, not decided']
+    from .. import schemespec
     for cfg, prog in ctx.programs().items():
         schemes.rule_signature_structure(ctx, cfg, prog)
         schemes.rule_delegation(ctx, cfg, prog)
+        ns = schemespec.rule_scheme(ctx, cfg, prog, which=['sign_precomputed', 'verify_precomputed', 'precompute'])
+        ctx.floor('R-SCHEME path segments[%s]' % cfg, ns, 10)
